@@ -45,6 +45,19 @@ class Dm14Query:
         self.exception_queue = queue.Queue()
         self.user_level = user_level
 
+    def _start_operation(self) -> None:
+        """
+        Forget whatever a previous operation that failed or timed out has left behind
+        (callback registrations, queued results) and listen for DM15 messages
+        """
+        self._ca.unsubscribe(self._parse_dm15)
+        self._ca.unsubscribe(self._parse_dm16)
+        while self.data_queue.qsize():
+            self.data_queue.get(block=False)
+        while self.exception_queue.qsize():
+            self.exception_queue.get(block=False)
+        self._ca.subscribe(self._parse_dm15)
+
     def _wait_for_data(self) -> None:
         """
         Determines whether to send data or wait to receive data based on the command type. If the command is a write command, then the data is sent.
@@ -237,7 +250,7 @@ class Dm14Query:
         self.signed = signed
         self.return_raw_bytes = return_raw_bytes
         self.command = Command.READ
-        self._ca.subscribe(self._parse_dm15)
+        self._start_operation()
         self._send_dm14(self.user_level)
         self.state = QueryState.WAIT_FOR_SEED
         # wait for operation completed DM15 message
@@ -283,7 +296,7 @@ class Dm14Query:
         self.command = Command.WRITE
         self.bytes = self._values_to_bytes(values)
         self.object_count = len(values)
-        self._ca.subscribe(self._parse_dm15)
+        self._start_operation()
         self._send_dm14(self.user_level)
         self.state = QueryState.WAIT_FOR_SEED
         # wait for operation completed DM15 message
